@@ -19,6 +19,23 @@ CLAIMED = True
 COQ_MODULES = ["C01_Check", "C01_Proofs", "C01_Bsearch", "C01_Kernel", "C01_Mosaic", "C01_MosaicInst"]
 PROPERTY_MODULE = "C01_Property"
 ALLOWED_AXIOMS = []
+
+# The MiniPy model of these functions is regenerated from the current source on every run
+# (harness/pytrans.py) and proved equal to the hand-written models in coq/translated/TV_C01.v.
+TRANSLATION = {
+    "spec": {
+        "module": "Gen_SimGenotype",
+        "classes": [("haptools/admix_storage.py", "HaplotypeSegment", 1)],
+        "functions": [
+            ("haptools/sim_genotype.py", "_find_coord"),
+            ("haptools/sim_genotype.py", "_find_random_sample"),
+            ("haptools/sim_genotype.py", "start_segment"),
+            ("haptools/sim_genotype.py", "get_segment"),
+        ],
+    },
+    "models": ["TVM_C01"],   # definitions only: evaluation of the translated code (tv_kernel relation)
+    "proofs": ["TV_C01"],    # translation-validation theorems
+}
 RULE = (
     "kernel: parents of 1-3 chromosomes x 1-8 tracts with coordinates from a small grid so that "
     "start/end collide with tract ends (+-1); non-trivial = admixed copy whose interval crosses or "
@@ -460,7 +477,24 @@ class Child(Relation):
         return "child mosaic of recorded parents"
 
 
-RELATIONS = [Kernel(), Child()]
+class TVKernel(Kernel):
+    """The same generated calls, evaluated against the MiniPy syntax regenerated from the current source
+    (translator + interpreter validation); holds is the kernel relation's property checker."""
+    name = "tv_kernel"
+    coq_lib = "HVG"
+    coq_module = "TVM_C01"
+    coq_check = "check_tv_kernel"
+    coq_case_type = "C01_Check.kcase"
+    coq_model = "model_tv_kernel"
+    coq_imports = Kernel.coq_imports + ["C01_Check"]
+    budget = {"quick": 500, "thorough": 6000}
+
+    def signature(self, inp, obs):
+        return "tv_" + super().signature(inp, obs)
+
+
+
+RELATIONS = [Kernel(), Child(), TVKernel()]
 
 LEVEL_TEXT = (
     "Coq theorems over all parental tract layouts, intervals and draw streams (no size bound) about a Gallina model of "
